@@ -14,7 +14,11 @@ Norm(x) == IF x \in {"OK", "BUFFER_TOO_SMALL", "OPERATION_NOT_INITIALIZED", "OPE
 TReset == IsEv("Reset") /\ ses' = [s \in Sessions |-> Idle] /\ rv' = "OK"
 TInit  == IsEv("MInit") /\ InitOp(E.s, E.k, ModeTable[E.m], E.rv = "OK") /\ Norm(rv') = Norm(E.rv)
 \* guard: the bytes behind the announced buffer and behind the reported length are untouched
-TCall  == IsEv("Call") /\ Call(E.s, E.fn, E.n, E.a, [rv |-> Norm(E.rv), L |-> E.L, w |-> E.w]) /\ E.guard
+\* val / fedn: see P11Ops ("na" / -1 where the driver has no reference for the mode)
+TCall  == IsEv("Call") /\ E.guard
+          /\ Call(E.s, E.fn, E.n, E.a, [rv |-> Norm(E.rv), L |-> E.L, w |-> E.w,
+                                       val |-> IF "val" \in DOMAIN E THEN E.val ELSE "na",
+                                       fedn |-> IF "fedn" \in DOMAIN E THEN E.fedn ELSE 0 - 1])
 
 TInit0 == Init /\ l = 1 /\ TLCSet(1, 1)
 TNext == TReset \/ TInit \/ TCall
